@@ -311,3 +311,22 @@ func TryFault(f func()) (kind string, msg string) {
 	defer debug.SetPanicOnFault(old)
 	return Try(f)
 }
+
+// TryTimeout is Try on a separate goroutine with a watchdog: a call that has not returned after limit is reported as
+// kind "hang" and abandoned (its goroutine keeps running until the process exits). The limit is meant to be four or
+// more orders of magnitude above the normal duration of the call - it tells "never returns" from "returns", it is not
+// a performance oracle.
+func TryTimeout(f func(), limit time.Duration) (kind string, msg string) {
+	type res struct{ kind, msg string }
+	ch := make(chan res, 1)
+	go func() {
+		k, m := Try(f)
+		ch <- res{k, m}
+	}()
+	select {
+	case r := <-ch:
+		return r.kind, r.msg
+	case <-time.After(limit):
+		return "hang", fmt.Sprintf("the call did not return within %s", limit)
+	}
+}
